@@ -1,0 +1,92 @@
+//! Verification hooks. Only compiled with `--cfg fast_qr_verif`; never part of a normal build.
+//!
+//! * thin public wrappers over crate-private routines (block division, generator accessor,
+//!   block interleaver, bit-stream encoder),
+//! * a recorder for the mask candidates tried by the selection loop,
+//! * scheduling points that call a thread-local callback (unset by default).
+#![allow(missing_docs)]
+
+use std::cell::{Cell, RefCell};
+
+use crate::datamasking::Mask;
+use crate::encode::Mode;
+use crate::{QRCode, Version, ECL};
+
+/// `polynomials::division`
+#[must_use]
+pub fn division(from: &[u8], by: &[u8]) -> [u8; 255] {
+    crate::polynomials::division(from, by)
+}
+
+/// `hardcode::get_polynomial`
+#[must_use]
+pub fn get_polynomial(version: Version, ecl: ECL) -> &'static [u8] {
+    crate::hardcode::get_polynomial(version, ecl)
+}
+
+/// `polynomials::structure`
+#[must_use]
+pub fn structure(data: &[u8], ecl: ECL, version: Version) -> [u8; 5430] {
+    crate::polynomials::structure(data, ecl, version)
+}
+
+/// `encode::encode`, returned as (bit length, bytes)
+#[must_use]
+pub fn encode(input: &[u8], ecl: ECL, mode: Mode, version: Version) -> (usize, Vec<u8>) {
+    let c = crate::encode::encode(input, ecl, mode, version);
+    (c.len(), c.get_data().clone())
+}
+
+/// One candidate of the mask selection loop
+pub struct Candidate {
+    pub mask: Mask,
+    pub score: u32,
+    pub matrix: Box<QRCode>,
+}
+
+thread_local! {
+    static RECORDING: Cell<bool> = Cell::new(false);
+    static CANDIDATES: RefCell<Vec<Candidate>> = RefCell::new(Vec::new());
+    static POINT_CB: RefCell<Option<Box<dyn FnMut(&'static str)>>> = RefCell::new(None);
+}
+
+/// Switches candidate recording on or off for the current thread (clears the list)
+pub fn record_candidates(on: bool) {
+    RECORDING.with(|r| r.set(on));
+    CANDIDATES.with(|c| c.borrow_mut().clear());
+}
+
+/// Takes the candidates recorded on the current thread since the last call
+#[must_use]
+pub fn take_candidates() -> Vec<Candidate> {
+    CANDIDATES.with(|c| core::mem::take(&mut *c.borrow_mut()))
+}
+
+pub(crate) fn record_candidate(mask: Mask, score: u32, matrix: &QRCode) {
+    if RECORDING.with(Cell::get) {
+        CANDIDATES.with(|c| {
+            c.borrow_mut().push(Candidate {
+                mask,
+                score,
+                matrix: Box::new(matrix.clone()),
+            });
+        });
+    }
+}
+
+/// Installs (or removes) the scheduling-point callback of the current thread
+pub fn set_point_callback(cb: Option<Box<dyn FnMut(&'static str)>>) {
+    POINT_CB.with(|p| *p.borrow_mut() = cb);
+}
+
+/// A scheduling point; a no-op unless the current thread installed a callback
+#[inline]
+pub fn point(id: &'static str) {
+    POINT_CB.with(|p| {
+        if let Ok(mut guard) = p.try_borrow_mut() {
+            if let Some(cb) = guard.as_mut() {
+                cb(id);
+            }
+        }
+    });
+}
